@@ -23,7 +23,8 @@
 /* a deadline is now + (int) option, on a clock > 2^32 that never goes back */
 #define DEADLINE_WF(p)                                                         \
   (B((p)->deadline == -1) |                                                    \
-   (B((p)->deadline > ((int64_t) 1 << 31)) & B((p)->deadline <= g.now + 0x7fffffffLL)))
+   (B((p)->deadline > ((int64_t) 1 << 31)) &                                  \
+    (B((p)->deadline <= g.now) | B((uint64_t) (p)->deadline - (uint64_t) g.now <= 0x7fffffffULL))))
 
 /* the representation invariant of reproc_t (DESIGN.md §2.4); branch-free */
 #define INV(p)                                                                 \
@@ -106,8 +107,16 @@ static int setup_input(pipe_type *pipe, const uint8_t *data, size_t size)
 #define HAS_DL(k) ((k) < num_sources && sources[k].process != NULL && sources[k].process->deadline != -1)
 #define DL(k) (sources[k].process->deadline)
 /* for all k: phi(k) (explicit conjunction up to the bound) */
+#if VERIF_NSRC >= 3
 #define ALL_K(phi) (phi(0) && phi(1) && phi(2))
 #define ANY_K(phi) (phi(0) || phi(1) || phi(2))
+#elif VERIF_NSRC == 2
+#define ALL_K(phi) (phi(0) && phi(1))
+#define ANY_K(phi) (phi(0) || phi(1))
+#else
+#define ALL_K(phi) (phi(0))
+#define ANY_K(phi) (phi(0))
+#endif
 #define EXPIRED_AT_ENTRY(k) (HAS_DL(k) && DL(k) <= OLD(g.now))
 #define NOT_EXPIRED_NOW(k) (!HAS_DL(k) || DL(k) > g.now)
 /* "the result r is such that phi(r)": case split instead of a symbolic index */
@@ -171,7 +180,7 @@ CONTRACT(reproc_poll)
 int reproc_poll(reproc_event_source *sources, size_t num_sources, int timeout)
   REQ_(timeout >= -1 && num_sources <= VERIF_NSRC)
   ASSIGNS(sources != NULL: __CPROVER_object_whole(sources); G_ERR, G_POLL)
-  ENS("C14/reproc_poll.error_ghost_sane", G_ERR_SANE && g.now >= OLD(g.now))
+  ENS("C14/reproc_poll.error_ghost_sane", G_ERR_SANE && g.now >= OLD(g.now) && g.now - OLD(g.now) <= 8 * 0x7fffffffLL)
   ENSX("C14/reproc_poll.misuse_is_einval", IMPLIES(sources == NULL || num_sources == 0, RV == -EINVAL && OS_UNTOUCHED))
   ENS("C09/reproc_poll.sources_not_rewritten", IMPLIES(sources != NULL && num_sources != 0, ALL_K(KEPT)))
   ENS("C09/reproc_poll.epipe_only_if_nothing_can_be_polled", IMPLIES(sources != NULL && num_sources != 0 && RV == -EPIPE, !ANY_K(VALID_ANY) && g.pl.poll_calls == OLD(g.pl.poll_calls)))
@@ -324,6 +333,7 @@ CONTRACT(reproc_read)
 int reproc_read(reproc_t *process, REPROC_STREAM stream, uint8_t *buffer, size_t size)
   REQ("C14/reproc_read.handle_invariant", process == NULL || INV(process))
   ASSIGNS(process != NULL: *process; g; buffer != NULL: __CPROVER_object_whole(buffer))
+  ENS("C14/reproc_read.ghost_sane", G_ERR_SANE && g.now == OLD(g.now) && g.rl.rd_errno >= 0 && g.rl.rd_errno < 134 && (g.rl.rd_calls == OLD(g.rl.rd_calls) || g.rl.rd_calls == OLD(g.rl.rd_calls) + 1))
   ENS("C14/reproc_read.misuse_is_einval", IMPLIES(!RD_ARGS_OK, RV == -EINVAL && OS_UNTOUCHED))
   ENS("C02+C14/reproc_read.closed_or_unpiped_stream_is_epipe", IMPLIES(RD_ARGS_OK && RD_PIPE0 == -1, RV == -EPIPE && OS_UNTOUCHED && HANDLE_UNCHANGED))
   ENS("C02/reproc_read.one_read_on_that_stream", IMPLIES(RD_ARGS_OK && RD_PIPE0 != -1, g.rl.rd_calls == OLD(g.rl.rd_calls) + 1 && g.rl.rd_fd == RD_PIPE0 && g.rl.rd_buf == (const void *) buffer && g.rl.rd_n == size && g.wl.wr_calls == OLD(g.wl.wr_calls) && g.pl.poll_calls == OLD(g.pl.poll_calls)))
